@@ -31,7 +31,8 @@ func init() {
 		Batches:     func(tier string) int { return 16 },
 		Require: func(tier string) map[string]int64 {
 			return map[string]int64{"txn_calls_mirrored": 2000, "commits": 150, "aborts": 100, "end_session_aborts": 20, "store_failures": 20, "callback_errors": 20, "callback_panics": 10, "outside_checks": 2000,
-				"snapshots_taken": 500, "snapshot_rechecks": 10000, "cursor_snapshots": 100, "cancelled_writes": 50, "concurrent_runs": 16, "concurrent_snapshot_reads": 500, "trimming_commits_with_held_snapshots": 40}
+				"snapshots_taken": 500, "snapshot_rechecks": 10000, "cursor_snapshots": 100, "cancelled_writes": 50, "concurrent_runs": 16, "concurrent_snapshot_reads": 500, "trimming_commits_with_held_snapshots": 40,
+				"late_failures_in_txn": 60, "late_failure_then_commit": 40, "late_failure_last_before_commit": 20, "expiry_passes_committed_under_snapshots": 40, "expiry_passes_undone_under_snapshots": 20, "expiry_removed_under_snapshots": 40}
 		},
 		Run: runC03,
 	})
@@ -209,6 +210,8 @@ func runC03(c *fw.Ctx) {
 		c03Concurrent(c)
 	}
 	c03Trimmed(c)
+	c03FailedCallThenCommit(c)
+	c03ExpiryUnderSnapshots(c)
 	nhist := c.N(240, 2400) / c.NBatches
 	for q := 0; q < nhist; q++ {
 		idx := c.Batch*nhist + q
